@@ -470,6 +470,42 @@ fn corpus_cases(ctx: &Ctx, rng: &mut Rng) -> Vec<Case> {
             }
         }
     }
+    // the vocabulary real nodes send (exit reasons, tags, module names), under every atom tag, as the node of
+    // an identifier, as a module name and as a new atom-cache entry
+    for w in crate::genr::val::OTP_VOCABULARY {
+        let wb = w.as_bytes();
+        for tag in [100u8, 115, 118, 119] {
+            let mut b = vec![131u8, tag];
+            if tag == 100 || tag == 118 {
+                b.extend_from_slice(&(wb.len() as u16).to_be_bytes());
+            } else {
+                b.push(wb.len() as u8);
+            }
+            b.extend_from_slice(wb);
+            out.push(Case::Bytes("vocabulary/atom".into(), b));
+        }
+        let mut atom = vec![119u8, wb.len() as u8];
+        atom.extend_from_slice(wb);
+        let mut pid = vec![131u8, 88];
+        pid.extend_from_slice(&atom);
+        pid.extend_from_slice(&[0, 0, 0, 1, 0, 0, 0, 0, 0, 0, 0, 1]);
+        out.push(Case::Bytes("vocabulary/pid-node".into(), pid));
+        let mut export = vec![131u8, 113];
+        export.extend_from_slice(&atom);
+        export.extend_from_slice(&atom);
+        export.extend_from_slice(&[97, 2]);
+        out.push(Case::Bytes("vocabulary/export-fun".into(), export));
+        // {badrpc, {'EXIT', {Word, []}}}
+        let mut rpc = vec![131u8, 104, 2, 119, 6, b'b', b'a', b'd', b'r', b'p', b'c', 104, 2, 119, 4, b'E', b'X', b'I', b'T', 104, 2];
+        rpc.extend_from_slice(&atom);
+        rpc.push(106);
+        out.push(Case::Bytes("vocabulary/rpc-error-reply".into(), rpc));
+        // distribution header introducing the word as a new cache entry, control term = that atom
+        let mut d = vec![131u8, 68, 1, 0x08, 0x00, 7, wb.len() as u8];
+        d.extend_from_slice(wb);
+        d.extend_from_slice(&[82, 0]);
+        out.push(Case::Bytes("vocabulary/dist-header-new-entry".into(), d));
+    }
     // random bytes
     for _ in 0..ctx.pick(3000usize, 200_000usize) {
         let n = rng.below(48);
